@@ -15,7 +15,7 @@ CHECKS = {
     text="Exploration over function x frame-kind x bounds x placement cells; values depending on tie order are not judged.", note=EXEC_NOTE, design="DESIGN.md §3 C04 and §9"),
  "C05": dict(technique="runtime monitor of result column lists (sqlite3_column_name) against the model's frame and the compiler's own RQ frame; leaked helper-column detection; for sql.duckdb / sql.snowflake / sql.bigquery (not executable here) a static frame monitor computes the result columns from the parsed statement over the schema (stars expanded, EXCLUDE / EXCEPT lists applied) incl. an enumerated several-stars x hidden-column matrix",
     text="Exploration with a projection-centred workload: count, order and names of result columns.", note=EXEC_NOTE + " Blind spot: for frames that contain a wildcard AND a join ([W] ... join), the listed finding KF-C05-5 covers count / name / order mismatches, so a new column-list defect confined to such frames would be attributed to it. Wildcard frames without a join are judged strictly except for trailing helper columns (KF-C05-2); fully known frames ([K]) are judged strictly. On the EXCLUDE dialects helper columns leaking in programs that contain a sort are attributed to KF-C05-11, lost exclusions in front of further transforms to KF-C05-10.", design="DESIGN.md §3 C05 and §9"),
- "C06": dict(technique="metamorphic runtime monitor: base vs rewritten program (let-prefix, user function in 4 calling styles, filter split/merge, frame identities, module path) executed on the same database, BOTH sides compared with the reference model (exactly one side deviating = violation); 40% boundary programs cut at every (prefix-end kind, suffix-start kind) pairing",
+ "C06": dict(technique="metamorphic runtime monitor: base vs rewritten program (let-prefix, user function in 4 calling styles, filter split/merge, frame identities, module path) executed on the same database, BOTH sides compared with the reference model (exactly one side deviating = violation); 40% boundary programs cut at every (prefix-end kind, suffix-start kind) pairing; plus 1 720 enumerated take-chain bases cut after each take",
     text="Exploration over (base, rewrite site, rewrite kind) pairs and compositions of two; evidence lists boundary kind pairs covered.", note=EXEC_NOTE, design="DESIGN.md §3 C06 and §9"),
  "C07": dict(technique="runtime monitors on emitted SQL for all 12 dialects: sqlparser's grammar for the dialect, an AST scope/binding monitor, and SQLite prepare (the real engine of sql.sqlite) for the sqlite/generic output of random relational programs and of ~750 schema-based feature programs (set operations incl. tops with compiler-added columns, let readers, a loop matrix, distinct, literals of every lexable form, boundary takes/frames); the scope monitor also reports a self-referencing CTE in a WITH list that is not RECURSIVE and an EXCLUDE list naming an unknown column",
     text="Exploration: every accepted program's statement is parsed per dialect, scope-checked and (sqlite/generic) prepared against the schema.", note="Trusts sqlparser 0.60 dialect grammars as stand-ins for the engines' parsers (they are permissive: only SQLite output is also checked by a real engine); the scope monitor reports only what it can decide. Blind spot: the listed finding KF-C07-2 covers scope errors in any pipeline containing a join.", design="DESIGN.md §3 C07 and §9"),
